@@ -142,9 +142,10 @@ Qed.
 (* fundamental lemma: every handler program is related to itself *)
 Lemma run_h_hrel p : hrel (run_h p) (run_h p).
 Proof.
-  induction p as [|k IH|n k IH|k IH|k IH|key v k IH|c k IH|bs k IH];
+  induction p as [|i k IH|k IH|n k IH|k IH|k IH|key v k IH|c k IH|bs k IH];
     intros w1 w2 Hw s1 s2 HR; cbn [run_h].
   - exact HR.
+  - apply IH; auto. apply R_logev, HR.
   - pose proof HR as (a & _). rewrite a. apply IH; auto. apply R_logev, HR.
   - pose proof HR as (a & _). rewrite a. apply IH; auto. apply R_logev, R_set_body, HR.
   - pose proof HR as (a & _). rewrite a. apply IH; auto. apply R_logev, R_set_body, HR.
